@@ -173,7 +173,9 @@ def signatures(program_rules, base_sigs):
 def has_unknown(t):
   if t is None: return True
   if isinstance(t, tuple):
-    if t[0] == 'list': return has_unknown(t[1])
+    if t[0] == 'list':
+      if isinstance(t[1], tuple) and t[1][0] == 'list': return True      # lists of lists are refused by the type checker on purpose (documented in its message): not a typed program of the fragment
+      return has_unknown(t[1])
     if t[0] in ('rec', 'arrow'): return any(has_unknown(x) for _, x in t[1])
   return False
 
